@@ -16,6 +16,16 @@ operations, the session's inner map has object identity.
      compared with the spec state; the oracle (recovered panics, List/SendTo
      for live peers, leftovers after everybody left, stuck operations) is
      evaluated on the real hub.
+  4. Free-running stress (driver hub-stress): routers (SendTo, Broadcast,
+     BroadcastExcept, List) on a quiet session while other goroutines join /
+     leave a busy session and CloseSession runs on a third one; a goroutine
+     that makes no progress inside a hub call for 4 s means the hub is
+     wedged (what the gates cannot show: blocking inside a lock region);
+     panics are recovered and reported.
+  5. Real server (driver ghost-join): clients complete the WebSocket upgrade
+     and reset the TCP connection before / while thruserv writes its first
+     frames; a later healthy client must see only live peers in its
+     peer_list, and the session must end when the host leaves.
 """
 import os
 import vlib
@@ -74,6 +84,15 @@ def run(tier, seed, prop=PROP):
             acts[k] = acts.get(k, 0) + n
         if res['drift']:
             v.notes.append("drift sample: " + str(res['drift_samples'][:1])[:600])
+    # free-running readers and writers on the real hub (what happens inside a lock region: a lock taken twice, ...)
+    st = vlib.run_vh_sharded(['hub-stress', '-rounds', '4' if tier == "quick" else '24', '-duration', '1500ms' if tier == "quick" else '3s'], 4, timeout=900)
+    for viol in st['violations']:
+        v.violation(viol['sig'], viol.get('replay'))
+    # joins that are reset while the real server writes its first frames: no ghost may stay in the hub
+    srvb = vlib.build_repo_bin('./cmd/thruserv', 'thruserv')
+    gj = vlib.run_vh_sharded(['ghost-join', '-thruserv', srvb, '-rounds', '40' if tier == "quick" else '200'], 3, timeout=900)
+    for viol in gj['violations']:
+        v.violation(viol['sig'], viol.get('replay'))
     if tot['drift']:
         print("DRIFT %s: %d behaviours where the real Hub differs from Hub.tla (not a verdict)" % (prop, tot['drift']))
     v.coverage = dict(
@@ -81,7 +100,9 @@ def run(tier, seed, prop=PROP):
         traces_validated_against_impl=tot['behaviours'], samples=samples[:6],
         tlc=dict(runs=tlc_runs, negative_configs_refuted=refuted),
         replay=dict(behaviours=tot['behaviours'], steps=tot['steps'], drift=tot['drift'], distinct_behaviours=tot['distinct'],
-                    transitions_covered_on_real_hub=tot['covered'], actions_exercised=acts),
+                    transitions_covered_on_real_hub=tot['covered'], actions_exercised=acts,
+                    abrupt_joins_against_real_server=dict(sessions=gj['behaviours'], joins=gj['steps'], ghosts_listed=gj['extra'].get('ghosts_listed')),
+                    free_running_stress=dict(rounds=st['behaviours'], operations=st['extra'].get('operations'))),
     )
     v.assumptions = [
         "3 connections (A: one session with a same-peer-id reconnect; B: two sessions), <=2 concurrent broadcasts, 1 SendTo, channel capacity never reached (256 in the code)",
